@@ -7,14 +7,22 @@ import (
 
 // ValueByTag locates a value by its tag in a FIX message stored as a byte array.
 func ValueByTag(msg []byte, tag string) ([]byte, error) {
-	start := bytes.Index(msg, bytes.Join([][]byte{{1}, []byte(tag), {61}}, nil))
 	if len(msg) <= len(tag) {
 		return nil, fmt.Errorf("could not find the tag: %s, the message is too short: %s", tag, msg)
 	}
-	if start == -1 && !bytes.Equal(bytes.Join([][]byte{[]byte(tag)}, nil), msg[:len(tag)]) {
-		return nil, fmt.Errorf("the tag is not found: %s", tag)
+
+	// A field starts at the beginning of the message or right after a delimiter,
+	// and its tag is followed by '='.
+	q := append([]byte(tag), 61)
+	start := 0
+	if !bytes.HasPrefix(msg, q) {
+		start = bytes.Index(msg, append([]byte{1}, q...))
+		if start == -1 {
+			return nil, fmt.Errorf("the tag is not found: %s", tag)
+		}
+		start++
 	}
-	start += len(tag) + 2
+	start += len(q)
 	end := bytes.Index(msg[start:], []byte{1})
 	if end == -1 {
 		end = len(msg)
